@@ -101,16 +101,61 @@ def check(chk, sc, out):
         chk.mismatch(tag + ":rescale:raised:" + type(ex).__name__, desc + ": rescale_stds raised %r" % (ex,), payload)
 
 
+def spec_array(out):
+    cov = dict(out["cov"])
+    n = len(out["names"])
+    return np.array([[[math.nan if nanv(cov[j][a][b]) else float(fr(cov[j][a][b])) for b in range(n)] for a in range(n)] for j in range(len(cov))], dtype=float)
+
+
+def check_variants(chk, items):
+    """Several std vectors of one model as the variants of ONE model object: variant k has the autocovariances of its own scenario, before and
+    after rescale_stds (which must reach every variant)."""
+    scs, outs = [it[0] for it in items], [it[1] for it in items]
+    sc, out = scs[0], outs[0]
+    payload = {"kind": "acov-variants", "scs": [_plain(s) for s in scs], "src": list(out["src"])}
+    tag = "acov-variants:%s" % sc["id"]
+    desc = "model %s with %d variants (stds %s, measurement stds %s)" % (sc["id"], len(scs), [_plain(s["sd"]) for s in scs], [_plain(s["sdw"]) for s in scs])
+    try:
+        m = model(out["src"], True, fresh=True)
+        m.alter_num_variants(len(scs))
+        stds = {"std_" + n: [float(fr(s["sd"][i])) for s in scs] for i, n in enumerate(out["shocks"])}
+        stds.update({"std_" + n: [float(fr(s["sdw"])) for s in scs] for n in out["mshocks"]})
+        m.assign(**stds)
+        names = [str(x) for x in m.get_acov_dimension_names().rows]
+        order = [names.index(n) for n in out["names"]]
+        kk = len(dict(out["cov"])) - 1
+        def observed():
+            res = m.get_acov(up_to_order=kk, unpack_singleton=False)
+            return [np.stack([np.asarray(x, dtype=float) for x in per_variant])[:, order][:, :, order] for per_variant in res]
+        before = observed()
+        m.rescale_stds(3.0)
+        after = observed()
+    except Exception as ex:
+        chk.mismatch(tag + ":raised:" + type(ex).__name__, desc + ": raised %r" % (ex,), payload)
+        return
+    for v, o in enumerate(outs):
+        e = spec_array(o)
+        if before[v].shape != e.shape or not np.allclose(before[v], e, rtol=1e-8, atol=1e-10, equal_nan=True):
+            chk.mismatch(tag + ":value", desc + ": the autocovariances of variant %d are not those of its own standard deviations" % v, payload)
+            return
+        if not np.allclose(after[v], 9.0 * e, rtol=1e-8, atol=1e-10, equal_nan=True):
+            chk.mismatch(tag + ":rescale", desc + ": after rescale_stds(3) the autocovariances of variant %d are not 9 times the original ones (order-0 diagonal %s, expected %s)" % (
+                v, np.diag(after[v][0]).tolist(), (9.0 * np.diag(e[0])).tolist()), payload)
+            return
+
+
 def run(chk):
     dump = chk.scratch.file("acov.dump")
     r = tlc.must_pass(tlc.run("AcovMC", "AcovMC.thorough.cfg" if chk.tier == "thorough" else "AcovMC.cfg", chk.scratch, dump=dump, timeout=1800), "AcovMC")
     chk.add_tlc(r, "AcovMC")
     n = units = 0
+    groups = {}
     for st in tlaval.parse_dump(dump, want=lambda b: "done = TRUE" in b):
         sc, out = st["sc"], st["out"]
         if not (out["ok"] and out["scale_law"]):
             raise MachineryError("AcovMC: law false in dump")
         check(chk, sc, out)
+        groups.setdefault(sc["id"], []).append((sc, out))
         n += 1
         units += sc["id"] == "L5"
         if n in (3, 15):
@@ -118,6 +163,17 @@ def run(chk):
     os.remove(dump)
     if not units:
         raise MachineryError("AcovMC: no unit-root scenario")
+    nvar = 0
+    for ident, lst in sorted(groups.items()):
+        lst.sort(key=lambda so: repr(_plain(so[0])))
+        if len(lst) >= 3:
+            check_variants(chk, lst[:3])
+            check_variants(chk, lst[-2:])
+            nvar += 2
+    if not nvar:
+        raise MachineryError("AcovMC: no multi-variant group")
+    n += nvar
+    chk.notes["multi_variant_models"] = nvar
     chk.replayed += n
     chk.exhaustive = True
     chk.rule = ("library models L1, L2, L3, L9 and the unit-root model L5 x 2 shock-std vectors x 2 measurement stds, orders 0..2, all pairs of "
